@@ -178,6 +178,9 @@ def sc_list(case, fails):
     if np.linalg.norm(flat(arg) - before) > 0:
         fails.append(('property', 'api.list_psi0.orthogonal.matvec-modifies-its-argument',
                       f'|after - before| = {np.linalg.norm(flat(arg) - before)!r}'))
+    # sum of two list operators
+    Hsum = sparse.SumNpcLinearOperator(H, H)
+    chk(fails, 'list_psi0.sum.matvec', flat(Hsum.matvec(start())), 2 * D @ x0, 1e-9)
     # gram_schmidt on lists
     gs = kb.gram_schmidt([[L.npc_vector(st, va), L.npc_vector(st, vb)], [L.npc_vector(st, oa), L.npc_vector(st, ob)]])
     G = np.array([[np.vdot(flat(a), flat(b)) for b in gs] for a in gs])
@@ -306,6 +309,7 @@ def sc_flat(case, fails):
         fails.append(('property', 'api.flat.charge_sector-getter', f'{F.charge_sector} vs {qt}'))
     x = v[idx].astype(H.dtype)
     chk(fails, 'flat.matvec-Nx1', np.asarray(F.matvec(x.reshape(-1, 1))).reshape(-1), Ms @ x)
+    chk(fails, 'flat._matvec-Nx1', F._matvec(x.reshape(-1, 1)), Ms @ x)
     chk(fails, 'flat.matmat', F.matmat(np.stack([x, 2 * x], axis=1)), np.stack([Ms @ x, 2 * Ms @ x], axis=1))
     if herm:
         if F.adjoint() is not F and F.H is not F:
@@ -377,8 +381,9 @@ def sc_flat(case, fails):
 
     def mv(x):     # a simple operator on two-leg vectors: multiplication and leg-preserving map
         return x * c
-    for dtype, labels in ((None, None), (complex if cplx else float, ['a', 'b']), (None, ['b', 'a'])):
-        Fp, gflat = sparse.FlatLinearOperator.from_guess_with_pipe(mv, t, labels_split=labels, dtype=dtype)
+    for dtype, labels, compact in ((None, None, True), (complex if cplx else float, ['a', 'b'], True), (None, ['b', 'a'], True),
+                                   (None, ['a', 'b'], False)):
+        Fp, gflat = sparse.FlatLinearOperator.from_guess_with_pipe(mv, t, labels_split=labels, dtype=dtype, compact_flat=compact)
         chk(fails, 'flat.from_guess_with_pipe.matvec', Fp.matvec(gflat), c * gflat)
         back = Fp.flat_to_npc(gflat).split_legs(0)
         chk(fails, 'flat.from_guess_with_pipe.roundtrip', back.itranspose(['a', 'b']).to_ndarray(), t.to_ndarray())
